@@ -145,6 +145,11 @@ def documented_docs() -> list[tuple[str, dict]]:
                                                     {"type": "ACTOR", "target_id": 3, "ops": [op("b"), op("End")]},
                                                     {"type": "OBJECT", "target_id": "OBJECT_X", "ops": [op("c"), op("Hold")]},
                                                     {"type": "PERFORMER", "target_id": 0, "ops": [op("d"), op("End")]}]}))
+    docs.append(("mixed_routine_types", {"routines": [{"type": "GENERIC", "ops": [op("a"), op("End")]},
+                                                      {"type": "ACTOR", "target_id": 3, "ops": [op("b"), op("End")]},
+                                                      {"type": "COROUTINE", "name": "LATE", "ops": [op("c"), op("Return")]},
+                                                      {"type": "OBJECT", "target_id": 1, "ops": [op("d"), op("Hold")]},
+                                                      {"type": "COROUTINE", "name": "LATER", "ops": [op("e"), op("Return")]}]}))
     docs.append(("all_argument_types", {"routines": [{"type": "GENERIC", "ops": [op("a", *allp), op("End")]}]}))
     docs.append(("posmark_string_coords", {"routines": [{"type": "GENERIC", "ops": [
         op("a", {"type": "POSITION_MARK", "value": {"name": "m", "x": "10", "y": "10.5"}}), op("End")]}]}))
@@ -164,7 +169,12 @@ def main() -> None:
     progs = []
     for i in range(120 if q else 1500):
         r = random.Random(f"C15-{run.seed}-{i}")
-        progs.append(Gen(r, Cfg(max_depth=2, max_block=3, max_routines=3, terminator_prob=0.8)).program())
+        pr = Gen(r, Cfg(max_depth=2, max_block=3, max_routines=3, terminator_prob=0.8)).program()
+        if r.random() < 0.3:
+            # routine kinds mixed in one file (coroutines before, between and after other routines)
+            pr = [pr[0], pr[1], [([rt[0], rt[1], A("coroutine"), None, [f"CORO_{rt[1]}"], rt[5], rt[6]] if r.random() < 0.5 else rt)
+                                for rt in pr[2]]]
+        progs.append(pr)
     texts = [print_prog(p) for p in progs]
     texts_extra = ["def 0 {\n    jump @nowhere;\n}\n", "def 0 {", ""]
     inproc = run_impl([("compile", t) for t in texts + texts_extra])
@@ -217,6 +227,35 @@ def main() -> None:
     sub = idx[: (60 if q else 600)]
     with ThreadPoolExecutor(16) as ex:
         decs = list(ex.map(cli_decompile, [clis[i]["out"] for i in sub]))
+    back = run_impl([("compile", d["out"]) for d in decs])
+    from decomp import infos_equal, infos_of_ast as _ioa, norm_dm_ops
+    ok_back = [(i, b) for i, d, b in zip(sub, decs, back) if d["rc"] == 0]
+    from decomp import norm_dm_ast
+    beqs = run_driver([[A("equiv"), src_side(norm_dm_ast(progs[i])), ssb_side(norm_dm_ops(b["ops"]))] if b["ok"]
+                       else [A("cfg"), src_side(progs[i])] for i, b in ok_back])
+    from gen_ssb import wf_ssb
+    # what the decompiler itself makes of a well-formed routine set is C02's and C06's business: where the CLI prints exactly
+    # the text the decompiler gives in process for the document's routine set, the CLI has added nothing of its own
+    inproc_dec = run_impl([("decompile", ops_of_doc(docs[i]), *_ioa(progs[i])) for i, _ in ok_back])
+    cli_text = {i: d["out"] for i, d in zip(sub, decs)}
+    for ((i, b), eq), ip in zip(zip(ok_back, beqs), inproc_dec):
+        if ip["ok"] and ip["text"].strip() == cli_text[i].strip() and wf_ssb(ops_of_doc(docs[i])) is None:
+            run.count("cli-round-trip: text equals the in-process decompiler's")
+            if b["ok"] and eq["r"] == "ok":
+                run.count("cli-round-trip:ok")
+            continue
+        if not b["ok"]:
+            run.fail("decompile-cli-output-rejected", f"the text printed by the decompile CLI is rejected by the compiler ({b['err']})",
+                     {"source": texts[i], "stdout": clis[i]["out"]})
+            continue
+        ai, ac = _ioa(progs[i])
+        if eq["r"] == "fail":
+            run.fail("decompile-cli-output-behaves-differently", "compile CLI -> decompile CLI gives a program that behaves differently "
+                     f"from the source: {eq.get('o1')} vs {eq.get('o2')}", {"source": texts[i], "stdout": clis[i]["out"]})
+        elif not infos_equal(b["infos"], ai) or list(b["coros"]) != list(ac):
+            run.fail("decompile-cli-output-routine-table", f"compile CLI -> decompile CLI changes the routine table: {b['infos']} "
+                     f"{b['coros']} vs {ai} {ac}", {"source": texts[i], "stdout": clis[i]["out"]})
+        run.count("cli-round-trip:" + eq["r"])
     for i, d in zip(sub, decs):
         run.count("decompile-cli-on-compile-output:rc=" + str(d["rc"]))
         if d["rc"] != 0:
@@ -238,6 +277,19 @@ def main() -> None:
                      {"document": doc, "stderr": d["err"]})
         elif not d["out"].strip():
             run.fail("documented-json-empty:" + name, "decompile CLI prints nothing", {"document": doc})
+        else:
+            # the printed program must stand for the document: same behaviour, kinds, targets and names
+            b = run_impl([("compile", d["out"])])[0]
+            want_ops = ops_of_doc(doc)
+            if not b["ok"]:
+                run.fail("documented-json-output-rejected:" + name, f"the text printed for the document is rejected ({b['err']})", {"document": doc, "stdout": d["out"]})
+                continue
+            eq = run_driver([[A("equiv"), ssb_side(b["ops"]), ssb_side(want_ops)]], nproc=1)[0]
+            kinds = [r["type"] for r in doc["routines"]]
+            names = [r.get("name") for r in doc["routines"]]
+            if eq["r"] == "fail" or [x["type"] for x in b["infos"]] != kinds or [c for c in b["coros"]] != names:
+                run.fail("documented-json-output-differs:" + name, f"the program printed for the document differs from it: {eq} "
+                         f"{[x['type'] for x in b['infos']]} {b['coros']}", {"document": doc, "stdout": d["out"]})
     for bad_doc, name in (("{", "not json"), (json.dumps({"routines": []}), "no settings"),
                           (json.dumps(dict({"routines": [{"type": "WIZARD", "ops": []}]}, **SETTINGS)), "bad routine type")):
         d = cli_decompile(bad_doc)
